@@ -19,11 +19,15 @@ def encV : V → String
   | .d kv => "d:(" ++ ",".intercalate ((kv.map fun (k, v) => encChars k ++ "=" ++ encChars v).toArray.qsort (· < ·)).toList ++ ")"
   | .nil => "t:-"
   | .b x => if x then "b:1" else "b:0"
+  | .ref i => "ref:" ++ toString i      -- resolved by `encD` (the same object as authors[i] of the enclosing dict)
   | .l items => "l:[" ++ "|".intercalate (items.map fun kv => "(" ++ ",".intercalate ((kv.map fun (k, v) => encChars k ++ "=" ++ (match v with | some x => encChars x | none => "~")).toArray.qsort (· < ·)).toList ++ ")") ++ "]"
   | .det kv => "d:(" ++ ",".intercalate ((kv.map fun (k, v) => encChars k ++ "=" ++ (match v with | some x => encChars x | none => "~")).toArray.qsort (· < ·)).toList ++ ")"
 
 def encD (d : D) : String :=
-  "{" ++ ";".intercalate ((d.map fun (k, v) => encChars k ++ "=" ++ encV v).toArray.qsort (· < ·)).toList ++ "}"
+  let deref (v : V) : V := match v with
+    | .ref i => (match listOf d (S "authors") with | some items => .det (items.getD i []) | none => .det [])
+    | v => v
+  "{" ++ ";".intercalate ((d.map fun (k, v) => encChars k ++ "=" ++ encV (deref v)).toArray.qsort (· < ·)).toList ++ "}"
 
 def encState (s : MSt) : String :=
   s!"{s.c.depth} {s.stack.length} {if s.c.inentry then 1 else 0} {s.c.entries.length} {enc s.c.base.baseuri} {encOpt s.c.base.lang} {if s.c.incontent then 1 else 0}"
@@ -92,6 +96,9 @@ def driverStep (d : DSt) (ws : List String) : DSt × String :=
     let b64v : Option Str := match field "B:" with
       | some v => if v == "-" then none else decChars v
       | none => some (S "<oracle-miss>")
+    let emailv : Option Str := match field "M:" with
+      | some v => if v == "-" then none else decChars v
+      | none => some (S "<oracle-miss>")
     let pd : Option (List Int) := match dates with
       | d0 :: _ => let v := (d0.drop 2).toString; if v == "-" then none else (v.splitOn ",").mapM parseInt
       | [] => none
@@ -104,7 +111,8 @@ def driverStep (d : DSt) (ws : List String) : DSt × String :=
       let join (_b u : Str) : Str := match tbl.find? (·.1 == u) with | some p => p.2 | none => S "<oracle-miss>"
       apply d { base := baseOps "" "", join := join, fix := id, loose := d.loose, parseDate := fun _ => pd,
                 looksHtml := fun _ => looks, resolveMarkup := fun _ _ _ => strField "R:", sanitize := fun _ _ => strField "Z:",
-                b64 := fun _ => b64v, decodeEnt := fun _ _ => strField "E:", resolveOn := d.resolveOn, sanitizeOn := d.sanitizeOn } (.stop tag)
+                b64 := fun _ => b64v, decodeEnt := fun _ _ => strField "E:", resolveOn := d.resolveOn, sanitizeOn := d.sanitizeOn,
+                emailMatch := fun _ => emailv } (.stop tag)
     | none => (d, "bad-op")
   | ["data", t] =>
     match decChars t with
